@@ -202,7 +202,7 @@ pub fn random_colour_encoding(rng: &mut Rng, allow_icc: bool) -> ColourEncoding 
     let tf = match rng.below(9) {
         0 => Tf::Gamma(match rng.below(3) {
             0 => rng.u32range(1, (1 << 24) - 1),
-            1 => *rng.pick(&[1u32, 10_000_000, 4_545_455, (1 << 24) - 1, 0]),
+            1 => *rng.pick(&[1u32, 10_000_000, 4_545_455, (1 << 24) - 1, 1221]),
             _ => rng.u32range(1_000_000, 10_000_000),
         }),
         1 => Tf::Bt709,
